@@ -311,7 +311,8 @@ class PyDo:
         finally:
             for n in declared - outer:                     # block-local declarations end with the block
                 if n in self.env:
-                    self.seen_types.setdefault(n, self.env.pop(n))
+                    t = self.env.pop(n)
+                    if t != 'none' and self.seen_types.get(n) in (None, 'none'): self.seen_types[n] = t
 
     def block_(self, stmts, ind, declared, out, pad):
         for s in stmts:
@@ -434,7 +435,7 @@ class PyDo:
             for n in hoist:
                 t = self.env.get(n, self.seen_types.get(n))
                 if t is None or t == 'none': raise Untranslatable(f"cannot type hoisted variable {n}")
-                decl.append(f"{pad}let mut {n} : {self.lean_type(t)} := default")
+                decl.append(f"{pad}let mut {n} : {self.lean_type(t)} := {self.default_value(t)}")
                 declared.add(n)
             types = {n: self.env.get(n, self.seen_types.get(n)) for n in hoist}
             self.env = saved_env; self.env.update(types)
@@ -462,6 +463,9 @@ class PyDo:
                 body = self.block(s.orelse, ind + 2, declared)
                 out += body if body else [f"{pad}  pure ()"]
         return out
+
+    def default_value(self, t):
+        return 'default'
 
     def lean_type(self, t):
         base = {'bool': 'Bool', 'op': 'Tealer.Op', 'sv': 'Tealer.PySV', 'oiv': 'Option Tealer.IntVal', 'nat': 'Nat', 'int': 'Int', 'str': 'String',
